@@ -45,6 +45,7 @@ struct mt_ext {
 void mt_register_ext(struct mt_ext *e);
 void mt_log(const char *fmt, ...) __attribute__((format(printf, 1, 2)));
 void mt_finish(const char *why) __attribute__((noreturn));
+void *mt_malloc_filled(size_t n);	/* malloc + the byte pattern of the scenario (cfg fill=N or derived from seed=) */
 int mt_me(void);
 void mt_yield(void);
 void mt_activity(void);
